@@ -90,8 +90,15 @@ int main() {
         ParticleSet first(N1 > 0 ? N1 : 1, dl, dc, quat), first_res(N1 > 0 ? N1 : 1, dl, dc, quat);
         VectorXi first_par = VectorXi::Constant(N1 > 0 ? N1 : 1, -7);
         if (N1 > 0) first.weight() = c.mat("lw_first");
+        // meta xfer: the resampler used is obtained from the seeded one by copy / move construction or assignment
+        const std::string xfer = c.m("xfer", "none");
         if (c.kind == "plain") {
-            Resampling r(seed);
+            Resampling r0(seed);
+            Resampling other(seed + 12345u);
+            if (xfer == "move_assign") other = std::move(r0);
+            else if (xfer == "copy_assign") other = r0;
+            Resampling r(xfer == "copy_ctor" ? Resampling(r0) : xfer == "move_ctor" ? Resampling(std::move(r0))
+                         : (xfer == "move_assign" || xfer == "copy_assign") ? Resampling(other) : Resampling(r0));
             if (N1 > 0) {
                 std::uniform_real_distribution<double> d(0.0, 1.0 / N1);
                 (void)d(mirror);
@@ -108,9 +115,14 @@ int main() {
         } else {
             const double ratio = c.mat("ratio")(0, 0);
             std::unique_ptr<ParticleSetInitialization> init;
-            if (c.m("init") == "grid") init.reset(new GridInit((unsigned)c.mi("nx"), (unsigned)c.mi("ny")));
+            // "gridfail": a grid whose size does not match num_prior: initialize() returns false and writes nothing
+            if (c.m("init") == "grid" || c.m("init") == "gridfail") init.reset(new GridInit((unsigned)c.mi("nx"), (unsigned)c.mi("ny")));
             else init.reset(new CountingInit());
-            ResamplingWithPrior r(std::move(init), ratio, seed);
+            ResamplingWithPrior r0(std::move(init), ratio, seed);
+            ResamplingWithPrior other(std::unique_ptr<ParticleSetInitialization>(new CountingInit()), 0.125, seed + 999u);
+            if (xfer == "move_assign") other = std::move(r0);
+            ResamplingWithPrior r(xfer == "move_assign" ? std::move(other) : std::move(r0));   // move construction in every case
+            if (res.components != (std::size_t)(N + c.mi("presize"))) res = ParticleSet(N + c.mi("presize"), dl, dc, quat);
             if (N1 > 0) {
                 const long np1 = (long)std::floor(N1 * ratio);
                 std::uniform_real_distribution<double> d(0.0, 1.0 / (N1 - np1));
